@@ -47,7 +47,7 @@ WORDS = ['ab', 'hello world', 'x', 'A1-b2', 'two  spaces', '>>>', '$ ', 'PEXPECT
 
 def shards(tier):
     q = tier == 'quick'
-    return [{'n': 4 if q else 100} for _ in range(12)] + [{'kind': 'scripted', 'n': 40 if q else 1500} for _ in range(6)]
+    return [{'n': 4 if q else 100} for _ in range(12)] + [{'kind': 'scripted', 'n': 60 if q else 1500} for _ in range(6)]
 
 
 @st.composite
